@@ -186,6 +186,8 @@ type ProtoClient struct {
 	Now      func() uint64
 	// YieldLabel, when non-empty, makes Current/Get scheduling points.
 	YieldLabel string
+	// Namespace, when set, is the only namespace ForNamespace knows.
+	Namespace string
 }
 
 // NewProtoClient sorts versions by genesis time.
@@ -229,8 +231,14 @@ func (c *ProtoClient) at(t uint64) (protocol.Version, error) {
 	return nil, fmt.Errorf("protocol parameters are not defined for anchoring time: %d", t)
 }
 
-// ForNamespace implements protocol.ClientProvider.
-func (c *ProtoClient) ForNamespace(string) (protocol.Client, error) { return c, nil }
+// ForNamespace implements protocol.ClientProvider. With Namespace set, other namespaces are unknown.
+func (c *ProtoClient) ForNamespace(ns string) (protocol.Client, error) {
+	if c.Namespace != "" && ns != c.Namespace {
+		return nil, fmt.Errorf("protocol client not found for namespace [%s]", ns)
+	}
+
+	return c, nil
+}
 
 // CompressionProxy wraps the real gzip registry; Fail can inject compression errors.
 type CompressionProxy struct {
